@@ -45,6 +45,7 @@ pub fn src_name(s: &Src) -> &'static str {
   match s {
     Src::Hot(_) => "subject",
     Src::Raw(_) => "create(hot)",
+    Src::RawEager(_) => "create(hot, eager first item)",
     Src::Iter(_) | Src::IntoIter(_) => "from_iter",
     Src::Create(_) => "create",
     Src::CreatePolling(_) => "create(polling)",
